@@ -448,7 +448,13 @@ class IH5Dataset(IH5Node):
         if self._cidx != self._last_idx:
             raise ValueError(f"Cannot set '{key}', node is not from the latest patch!")
         # if we're in the latest patch, allow writing as usual (pass through)
-        self._files[-1][self._gpath][key] = val  # type: ignore
+        node = self._files[-1][self._gpath]
+        # (only a scalar of one byte could turn into the deletion marker)
+        old_val = node[()] if node.shape == () and node.dtype.itemsize == 1 else None
+        node[key] = val  # type: ignore
+        if old_val is not None and _node_is_del_mark(node):
+            node[()] = old_val
+            raise ValueError("Resulting value is forbidden, cannot assign!")
 
 
 class IH5AttributeManager(IH5InnerNode):
@@ -620,6 +626,8 @@ class IH5Group(IH5InnerNode):
         new_ds = self._files[-1].create_dataset(
             None, shape=shape, dtype=dtype, data=data, **kwargs
         )
+        if _node_is_del_mark(new_ds):  # e.g. after conversion to passed dtype/shape
+            raise ValueError("Resulting value is forbidden, cannot assign!")
 
         if path in self._files[-1] and _node_is_del_mark(
             self._get_child_raw(path, self._last_idx)
